@@ -324,7 +324,7 @@ func checkC17(c *fw.Ctx) {
 			}
 		}
 		if !found {
-			c.Fail("4 port", "splitServerName parses the port as an unsigned 16-bit decimal", c.P.Pos(fn.Pos()), "no strconv parse of the port found")
+			c.Undecided("4 port", "splitServerName parses the port as an unsigned 16-bit decimal", "no strconv parse of the port was found in splitServerName")
 		} else if len(calls) == 1 {
 			if name := fw.CalleeName(calls[0]); name == "strconv.ParseUint" {
 				b, _ := fw.ConstInt(calls[0].Common().Args[1])
